@@ -162,10 +162,21 @@ type ArrRef struct {
 var dcForce = ""
 
 // genDeepcopyProgram builds npk packages, package i may use types of packages < i.
+// dcCrossed: package paths and package names sort in opposite orders
+var dcCrossed = false
+
 func (g *Gen) genDeepcopyProgram(prefix string, npk int, arrayRefs bool) ([]dcPkg, []string) {
 	d := &dcGen{g: g, classes: map[string]bool{}, arrayRefs: arrayRefs}
 	for p := 0; p < npk; p++ {
 		pk := dcPkg{Path: fmt.Sprintf("ex.test/%sd%d", prefix, p), Name: fmt.Sprintf("d%d", p)}
+		if dcCrossed {
+			// the packages are processed in path order (a/.., b/.., c/..) while the generator's names for
+			// their types (last directory + "_" + type name) sort differently: the first package's last
+			// (z0_...), the others' before nearly everything else in the universe (A1_... < Array_...,
+			// B2_... < Map_... < bool)
+			pk.Name = []string{"z0", "A1", "B2"}[p]
+			pk.Path = fmt.Sprintf("ex.test/%s%c/%s", prefix, 'a'+p, pk.Name)
+		}
 		d.pkgs = append(d.pkgs, pk)
 		cur := &d.pkgs[p]
 		pkgTag := g.Chance(0.7)
